@@ -16,6 +16,14 @@ var (
 	ErrNoHealthyEndpoints = errors.New("no healthy endpoints available")
 )
 
+// isDialError reports whether err was raised while establishing the connection.
+// A dial that hits the connect timeout satisfies errors.Is(context.DeadlineExceeded)
+// but is a connection failure, not an exceeded response timeout.
+func isDialError(err error) bool {
+	var opErr *net.OpError
+	return errors.As(err, &opErr) && opErr.Op == "dial"
+}
+
 // MakeUserFriendlyError converts technical errors into user-friendly messages with actionable guidance
 // all implementations should use this function to ensure consistent error handling with detailed context
 // for TUI output and logging.
@@ -42,7 +50,7 @@ func MakeUserFriendlyError(err error, duration time.Duration, errorContext strin
 		}
 		return fmt.Errorf("request cancelled after %.1fs - client disconnected during processing", duration.Seconds())
 
-	case errors.Is(err, context.DeadlineExceeded):
+	case errors.Is(err, context.DeadlineExceeded) && !isDialError(err):
 		if responseTimeout > 0 {
 			return fmt.Errorf("request timeout after %.1fs - server timeout of %.1fs exceeded (LLM model taking longer than expected)",
 				duration.Seconds(), responseTimeout.Seconds())
@@ -63,7 +71,8 @@ func MakeUserFriendlyError(err error, duration time.Duration, errorContext strin
 	var netErr net.Error
 	if errors.As(err, &netErr) {
 		if netErr.Timeout() {
-			return fmt.Errorf("network timeout after %.1fs - unable to connect to LLM backend (check backend availability)", duration.Seconds())
+			// keep the cause in the chain so the retry handler still sees a connection error
+			return fmt.Errorf("network timeout after %.1fs - unable to connect to LLM backend (check backend availability): %w", duration.Seconds(), netErr)
 		}
 		return fmt.Errorf("network error after %.1fs - %w (check network connectivity to LLM backend)", duration.Seconds(), netErr)
 	}
